@@ -15,9 +15,10 @@ func init() {
 		Meta: propMeta{Level: "other", Assumptions: commonAssumptions,
 			Explanation: "Decides: C03.local (the consensus functions — round, witness, Lamport timestamp, ancestry, strongly-see, fame, round-received, frame/root/block construction, thresholds, median — and everything they call inside the module, stopping at the Store boundary, read none of the process-local fields (topological indexes, consensus-event counter, pending-loaded counter), call no clock / randomness / OS function and none of the view-dependent store getters), " +
 				"C03.order (no ordered output — Frame.Events, Root.Events, Frame.Peers, block transactions — is filled from a map iteration, from a map-ordered helper result or from a local-arrival-ordered queue without a dominating content-keyed sort), " +
-				"C03.memo (each memo cache is filled only by its wrapper with the wrapped function's result for the same arguments, keyed by ALL parameters, and by InsertFrameEvent / Reset), C03.canon (frame and round encoders are canonical). " +
+				"C03.memo (each memo cache is filled only by its wrapper with the wrapped function's result for the same arguments, keyed by ALL parameters, and by InsertFrameEvent / Reset), " +
+				"C03.memotime (a necessary condition of batching-independence: the memoised round / witness predicates — whose value depends on which witnesses DivideRounds has registered so far — are never evaluated on the insertion path, only by the consensus passes), C03.canon (frame and round encoders are canonical). " +
 				"NOT decided: independence from cache size, store type and batching of consensus passes (a quantification over configurations of a dynamic process; LRU-eviction dependence of GetRound is a runtime question)."},
-		Rules: []ruleFunc{c03local, c03order, c03memo, func(p *Prog, r *Report) { r.Rule("C03.canon", 2, "canonical encoders"); canonRule(p, r, "C03.canon") }},
+		Rules: []ruleFunc{c03local, c03order, c03memo, c03memotime, func(p *Prog, r *Report) { r.Rule("C03.canon", 2, "canonical encoders"); canonRule(p, r, "C03.canon") }},
 	})
 	register(&propDef{
 		ID: "C13", NeedCG: true,
@@ -597,5 +598,30 @@ func c13resetfields(p *Prog, r *Report) {
 			}
 			r.Check(written, rule, spec.typ+"."+spec.method+":"+f, p.pos(fn.Pos()), fnName(fn), f+" is re-initialised", spec.typ+"."+spec.method+" does not re-initialise "+f+": state of the pre-reset chain (e.g. the last block index of a node that held blocks above the anchor) leaks into the reset hashgraph")
 		}
+	}
+}
+
+
+// C03.memotime: round(x) counts the witnesses of the parent round REGISTERED SO FAR (RoundInfo is
+// filled by DivideRounds) and is memoised. Evaluating it while inserting events — before the
+// consensus pass has registered the witnesses of earlier rounds — caches a value that depends on
+// how insertions and passes are interleaved.
+func c03memotime(p *Prog, r *Report) {
+	const rule = "C03.memotime"
+	r.Rule(rule, 1, "the memoising wrappers round / witness are not reachable from InsertEvent (only from the consensus passes and frame construction)")
+	ie := p.Func(HG, "Hashgraph", "InsertEvent")
+	if ie == nil {
+		r.Anchor(rule, "Hashgraph.InsertEvent")
+		return
+	}
+	for _, w := range []string{"round", "witness"} {
+		t := p.Func(HG, "Hashgraph", w)
+		if t == nil {
+			r.Anchor(rule, "Hashgraph."+w)
+			continue
+		}
+		path := p.pathAvoiding([]*ssa.Function{ie}, t, func(f *ssa.Function) bool { return !inModule(f) || isStoreImpl(f) })
+		r.Check(path == nil, rule, "InsertEvent-/->"+w, p.pos(ie.Pos()), fnName(ie), "insertion never evaluates (and memoises) "+w+"()",
+			"the memoised "+w+"() is evaluated while inserting an event: "+strings.Join(path, " -> ")+"; its value depends on the witnesses registered by the consensus passes run so far, so rounds, witnesses, fame, round-received and blocks depend on how insertions are batched between passes")
 	}
 }
